@@ -145,6 +145,14 @@ class Run:
             return None
         return Failure(kind, f"[{prop}] {what}") if prop in self.props else None
 
+    def F_any(self, props, kind, what):
+        """a failure that violates several properties at once: attributed to the first one this run serves"""
+        for prop in props:
+            f = self.F_(prop, kind, what)
+            if f is not None:
+                return f
+        return None
+
     def snapshot(self):
         o = self.obs()
         o.pop("bad")
@@ -267,7 +275,11 @@ class Run:
                 dec = True if self.nu <= lo else (False if hi < self.nu else None)
                 dmin = d2[0][0]
                 if near[j] is not None and sum((a - b)**2 for a, b in zip(pre["rows"][near[j]]["meas"], m)) != dmin:
-                    return self.F_("C14", "oracle", f"{where}: index_of({[str(x) for x in m]}) = {near[j]} is not a nearest stored entry")
+                    return self.F_any(["C14", "C03", "C02", "C07"], "oracle",
+                                      f"{where}: index_of({[str(x) for x in m]}) = {near[j]} is not a nearest stored entry of the "
+                                      f"archive before the call (squared distance "
+                                      f"{sum((a - b)**2 for a, b in zip(pre['rows'][near[j]]['meas'], m))} vs minimum {dmin}), so the "
+                                      f"candidate is judged against / routed to the wrong entry")
             if not (lo - tol * max(1, hi) <= novelty[j] <= hi + tol * max(1, hi)):
                 return self.F_("C14", "oracle", f"{where}: candidate {tok}: reported novelty {float(novelty[j])} outside the exact "
                                f"bracket [{float(lo)}, {float(hi)}] of the mean distance to its {min(case['k'], n)} nearest entries")
